@@ -166,9 +166,15 @@ def _splice_fn(src_text, f, counts):
     want = f.get("loops", {})
     if want and max(want) > len(lp):
         raise Undecided("lost anchor: fn %s has %d loops, clause for loop %d" % (f["name"], len(lp), max(want)))
-    for k in sorted(want, reverse=True):
-        (_, open_i, _) = lp[k - 1]
-        body = body[:open_i] + "\n" + want[k].rstrip() + "\n" + body[open_i:]
+    ends = f.get("loop_ends", {})
+    if ends and max(ends) > len(lp):
+        raise Undecided("lost anchor: fn %s has %d loops, end-of-body proof for loop %d" % (f["name"], len(lp), max(ends)))
+    mb = rsx.mask(body)
+    # insertion points (offset, text): loop clauses before the `{` of loop k, proof text before the `}` that closes it
+    ins = [(lp[k - 1][1], "\n" + want[k].rstrip() + "\n") for k in want]
+    ins += [(rsx.match_brace(mb, lp[k - 1][1]), "\n" + ends[k].rstrip() + "\n") for k in ends]
+    for (off, txt) in sorted(ins, key=lambda x: -x[0]):
+        body = body[:off] + txt + body[off:]
     for (anchor, text, *where) in f.get("hints", []):
         # anchor = a short substring identifying ONE line of the body; the hint goes before / after that line
         lines = body.split("\n")
